@@ -328,6 +328,9 @@ def rule_final(R):
     """the PUBACK ends the exchange whatever its reason code (shared with C18)"""
     from .c18 import clause_remove_then_report
     clause_remove_then_report(R, "final", arms=("PubAck",))
+    # "never after its PUBACK": every PUBACK reaches the removal (C03's clause for the PUBACK arm)
+    from .c03 import clause_ack_reaches_removal
+    clause_ack_reaches_removal(R, "final/PubAck/reaches-removal", "PubAck", "retained_removal")
 
 
 def rule_limit(R):
